@@ -3,8 +3,13 @@ unchanged tree) lists which files under /repo/Tests are complete fonts together
 with cheap attributes; the bytes are always loaded / compiled from /repo at run
 time, with the fontTools of the tree under test.
 
-A font id is "bin:<path relative to Tests>[#n]" (n = TTC member) or
-"ttx:<relative path>" (complete TTX font, compiled on demand)."""
+A font id is "bin:<path relative to Tests>[#n]" (n = TTC member),
+"ttx:<relative path>" (complete TTX font, compiled on demand) or
+"gen:<seed>:<i>" (the i-th font specification drawn from vf.gen_font.specs() with the run's
+VERIF_SEED; built on demand; table shapes the test data lacks: OS/2 v5, EBLC/EBDT of every
+index/image format, Type 2 programs with flex/hints/subroutines, cmap 12/14/mac, kern, hdmx, ...).
+A replay file that names a gen id carries the specification itself (runner attaches "gen_specs"),
+so it stays replayable when the generator changes."""
 
 import io
 import json
@@ -24,9 +29,103 @@ def index():
     return _INDEX
 
 
+# ---------------------------------------------------------------------------
+# generated entries
+
+GEN_COUNT = int(os.environ.get("VERIF_GEN", "48"))
+_GEN_SPECS = {}  # fid -> spec (drawn here or registered from a replay file)
+_GEN_DRAWN = {}  # seed -> [fid, ...]
+_GEN_BYTES = {}
+_GEN_ENTRY = {}
+
+
+def _run_seed():
+    try:
+        return int(os.environ.get("VERIF_SEED", "1") or "1")
+    except ValueError:
+        return 1
+
+
+def gen_ids(seed=None, n=None):
+    """Ids of the generated fonts of this run (drawn once per process; a pure function of seed and n)."""
+    seed = _run_seed() if seed is None else seed
+    n = GEN_COUNT if n is None else n
+    if n <= 0:
+        return []
+    if (seed, n) not in _GEN_DRAWN:
+        import hypothesis
+        from hypothesis import given
+
+        from . import gen_font
+        from .runner import hyp_settings, subseed
+
+        got = []
+
+        @hypothesis.seed(subseed(seed, "gen-font"))
+        @hyp_settings(n)
+        @given(gen_font.specs())
+        def t(spec):
+            got.append(spec)
+
+        t()
+        ids = []
+        for i, spec in enumerate(got[:n]):
+            fid = "gen:%d:%d" % (seed, i)
+            _GEN_SPECS.setdefault(fid, spec)
+            ids.append(fid)
+        _GEN_DRAWN[(seed, n)] = ids
+    return _GEN_DRAWN[(seed, n)]
+
+
+def register_generated(fid, spec):
+    _GEN_SPECS[fid] = spec
+    _GEN_BYTES.pop(fid, None)
+    _GEN_ENTRY.pop(fid, None)
+
+
+def gen_spec(fid):
+    if fid not in _GEN_SPECS:
+        _, seed, i = fid.split(":")
+        gen_ids(int(seed))
+    if fid not in _GEN_SPECS:
+        raise KeyError(fid)
+    return _GEN_SPECS[fid]
+
+
+def gen_bytes(fid):
+    if fid not in _GEN_BYTES:
+        from . import gen_font
+
+        _GEN_BYTES[fid] = gen_font.build(gen_spec(fid))
+    return _GEN_BYTES[fid]
+
+
+def gen_entry(fid):
+    """Index entry of a generated font, from its specification and a struct-level look at the built file."""
+    if fid not in _GEN_ENTRY:
+        from . import sfntref
+
+        spec = gen_spec(fid)
+        try:
+            data = gen_bytes(fid)
+            tags = sorted(sfntref.parse(data).fonts[0].tables)
+            size = len(data)
+        except HarnessError:
+            raise
+        except Exception as e:  # a tree under test that cannot build the font: the entry is dropped, never an alarm
+            _GEN_ENTRY[fid] = None
+            return None
+        _GEN_ENTRY[fid] = dict(id=fid, flavor=None, numGlyphs=len(spec["names"]), ok=True, secs=0.0, size=size, tables=tags, upem=1000, variable="fvar" in tags, generated=True)
+    return _GEN_ENTRY[fid]
+
+
+def generated():
+    return [e for e in (gen_entry(f) for f in gen_ids()) if e is not None]
+
+
 def fonts(pred=None):
-    """List of index entries (dicts) for usable fonts, in stable order."""
-    out = [e for e in index()["fonts"]]
+    """List of index entries (dicts) for usable fonts, in stable order (corpus files, then generated fonts)."""
+    out = [e for e in index()["fonts"]] + generated()
     if pred:
         out = [e for e in out if pred(e)]
     return out
@@ -37,6 +136,11 @@ def ids(pred=None):
 
 
 def entry(fid):
+    if fid.startswith("gen:"):
+        e = gen_entry(fid)
+        if e is None:
+            raise KeyError(fid)
+        return e
     for e in index()["fonts"]:
         if e["id"] == fid:
             return e
@@ -60,6 +164,8 @@ def load_font(fid, **kw):
     from fontTools.ttLib import TTFont
 
     kind, rest = fid.split(":", 1)
+    if kind == "gen":
+        return TTFont(io.BytesIO(gen_bytes(fid)), **kw)
     if kind == "ttx":
         f = TTFont(**{k: v for k, v in kw.items() if k in ("recalcBBoxes", "recalcTimestamp")})
         f.importXML(path_of(fid))
@@ -74,6 +180,8 @@ def sfnt_bytes(fid):
     """Bytes of a plain (or original-flavour) font file for this id: bin ids give the
     file bytes (TTC members are re-saved as a standalone sfnt); ttx ids are compiled."""
     kind, rest = fid.split(":", 1)
+    if kind == "gen":
+        return gen_bytes(fid)
     if kind == "bin" and "#" not in rest:
         return file_bytes(fid)
     f = load_font(fid)
